@@ -15,6 +15,10 @@ def _legs(tier):
     out.append({"name": "images-comp", "driver": "atrb", "env": dict(_OC1, SCHEMA="t_comp"),
                 "gen": [("ATRollback_MC", "ATRollback_Gen_C18P.cfg")],
                 "trace": ("ATRollback_Trace", "ATRollback_Trace.cfg"), "shards": 2})
+    # a table with a secondary UNIQUE index on a nullable column: an upsert reaches an existing row through it
+    out.append({"name": "images-uq", "driver": "atrb", "env": dict(_OC1, SCHEMA="t_uq"),
+                "gen": [("ATRollback_MC", "ATRollback_Gen_C18U.cfg")],
+                "trace": ("ATRollback_Trace", "ATRollback_Trace.cfg"), "shards": 2})
     return out
 
 
